@@ -129,6 +129,7 @@ def _child(mod, prop, scenario, tape_values, wfd):
     S.delta = knobs.get("delta", 1e-4)
     S.horizon = knobs.get("horizon", 600.0)
     S.step_cap = knobs.get("step_cap", 300000)
+    S.stalls = list(knobs.get("stalls", []))
     strategy = make_strategy(knobs.get("strategy", {}), random.Random(seed ^ 0x51A7))
     S.strategy = strategy
     h = Harness(scenario)
